@@ -179,7 +179,7 @@ class CodedInputStream {
   template <typename T, std::enable_if_t<std::is_integral_v<T> && sizeof(T) == 1, bool> = true>
   void ReadByte(T& v) {
     if (buffer_ptr_ == buffer_end_ptr_) {
-      FillBuffer();
+      FillBufferOrThrow();
     }
     v = *buffer_ptr_++;
   }
@@ -273,12 +273,8 @@ class CodedInputStream {
 
   template <typename T, std::enable_if_t<std::is_integral_v<T>, bool> = true>
   void ReadFixedIntegerSlow(T& value) {
-    if (buffer_ptr_ == buffer_end_ptr_) {
-      FillBuffer();
-      ReadFixedIntegerFastFromArray(value, buffer_ptr_);
-      return;
-    }
-
+    // The buffer holds fewer than sizeof(T) bytes (a refill may also deliver
+    // fewer), so always go through ReadBytes, which throws at end of stream.
     uint8_t bytes[sizeof(T)];
     ReadBytes(bytes, sizeof(T));
     uint8_t* bytes_ptr = bytes;
@@ -301,17 +297,11 @@ class CodedInputStream {
 
   template <typename T, std::enable_if_t<std::is_integral_v<T>, bool> = true>
   void ReadVarIntegerSlow(T& value) {
-    if (buffer_ptr_ == buffer_end_ptr_) {
-      FillBuffer();
-      ReadVarIntegerFastFromArray(value, buffer_ptr_);
-      return;
-    }
-
     value = 0;
     int shift = 0;
     while (true) {
       if (buffer_ptr_ == buffer_end_ptr_) {
-        FillBuffer();
+        FillBufferOrThrow();
       }
       uint8_t byte = *buffer_ptr_++;
       value |= static_cast<T>(byte & 0x7F) << shift;
@@ -341,6 +331,14 @@ class CodedInputStream {
     buffer_ptr_ = buffer_.data();
     buffer_end_ptr_ = buffer_ptr_ + bytes_read;
     return bytes_read;
+  }
+
+  // Refills the buffer and throws if the underlying stream has no more data.
+  // FillBuffer() itself only throws on the call after the one that hit EOF.
+  void FillBufferOrThrow() {
+    if (FillBuffer() == 0) {
+      throw EndOfStreamException();
+    }
   }
 
   size_t RemainingBufferSpace() {
